@@ -235,6 +235,16 @@ func runC16(c *core.Ctx, ck *Check) {
 				pn *eco.Panic
 			}
 			baseRes := make([]br, len(probes))
+			if b%2 == 1 {
+				// twin questions first (the same two texts glued together, split at another place): an answer kept under a
+				// key without separator must not be served to the base spelling
+				for _, pi := range probes {
+					for _, tq := range twinQuestions(base, p.Strs[pi]) {
+						eco.SafeVersContains(tq[0], tq[1])
+						w.Count("twin_question_pretouches", 1)
+					}
+				}
+			}
 			for x, pi := range probes {
 				g, e1, p1 := eco.SafeVersContains(base, p.Strs[pi])
 				baseRes[x] = br{g, e1, p1}
